@@ -31,3 +31,32 @@ package rbt
 //@       nodeAt(ref(db.allocator), hdr.NodeAddr.idx, hdr.NodeAddr.off).flags & 32768 == old(nodeAt(ref(db.allocator), hdr.NodeAddr.idx, hdr.NodeAddr.off).flags) & 32768 &&
 //@       db.count == old(db.count) - 1 && db.size == old(db.size) - mathint(hdr.ValueLen) - mathint(nodeAt(ref(db.allocator), hdr.NodeAddr.idx, hdr.NodeAddr.off).klen)
 //@   ensures older: !(hdr.OldValue.idx == 4294967295 || hdr.OldValue.off == 4294967295) ==> nodeAt(ref(db.allocator), hdr.NodeAddr.idx, hdr.NodeAddr.off).flags == old(nodeAt(ref(db.allocator), hdr.NodeAddr.idx, hdr.NodeAddr.off).flags) && db.count == old(db.count)
+
+// ---- nested staging: the stack of checkpoints and the dirty mark (C08) ------------------------------------------------------
+// A staging level is a checkpoint pushed on db.stages; its handle is the depth after the push. Release pops exactly the top
+// level (handle 0 is a no-op, any other handle but the top panics) and publishes to the level below; only the release of the
+// OUTERMOST level (h == 1) - the one that makes the writes part of the buffer proper - may set the dirty mark, an inner
+// release leaves it alone (the enclosing level can still be cleaned up); nothing ever clears it. Cleanup pops the top level
+// (handle 0 and handles above the stack are no-ops, handles below the top panic) and never touches the dirty mark.
+//@ func (*RBT) IsStaging
+//@   prop C08
+//@   ensures result == (len(db.stages) > 0)
+//@ func (*RBT) Staging
+//@   prop C08
+//@   opaque-callee Checkpoint
+//@   ensures pushed: result == old(len(db.stages)) + 1 && len(db.stages) == result && db.dirty == old(db.dirty)
+//@ func (*RBT) Release
+//@   prop C08
+//@   may-panic
+//@   opaque-callee Checkpoint IsSamePosition
+//@   ensures noop: h == 0 ==> len(db.stages) == old(len(db.stages)) && db.dirty == old(db.dirty)
+//@   ensures popped: h != 0 ==> h == old(len(db.stages)) && len(db.stages) == h - 1
+//@   ensures inner: h != 1 ==> db.dirty == old(db.dirty)
+//@   ensures mono: old(db.dirty) ==> db.dirty
+//@ func (*RBT) Cleanup
+//@   prop C08
+//@   may-panic
+//@   opaque-callee Checkpoint IsSamePosition RevertToCheckpoint Truncate OnMemChange
+//@   ensures noop: h == 0 || h > old(len(db.stages)) ==> len(db.stages) == old(len(db.stages))
+//@   ensures popped: h != 0 && h <= old(len(db.stages)) ==> h == old(len(db.stages)) && len(db.stages) == h - 1
+//@   at call(OnMemChange) assert clean: db.dirty == old(db.dirty)
